@@ -1625,6 +1625,9 @@ pub fn oracle_c09(ctx: &Ctx, out: &mut Out, s: &Subject, rng: &mut Rng) {
                         "recursive_coinductive_unknown_diverges"
                     } else if rec {
                         "recursive_work_budget_exceeded"
+                    } else if s.coinductive && !has_unknowns(gt) && !s.text.contains('<') {
+                        // F32: a closed goal over a finite set of ground coinductive atoms (no generics)
+                        "slg_ground_coinductive_runaway"
                     } else {
                         "slg_work_budget_exceeded"
                     };
